@@ -231,9 +231,13 @@ func checkLink(c linkCase) (o vstat.Outcome) {
 		defer pcK.Close()
 		if c.Forge == "" {
 			dctx, dcancel := context.WithTimeout(ctx, 1500*time.Millisecond)
-			s, _, err := transport_quic.DialSession(dctx, quietLog, &transport_quic.Opts{}, pcK, identC, memAddr("server"), cExp)
+			s, k, err := transport_quic.DialSession(dctx, quietLog, &transport_quic.Opts{}, pcK, identC, memAddr("server"), cExp)
 			dcancel()
 			csess, cerr = s, err
+			cpub = nil
+			if err == nil && k != nil {
+				cpub, _ = k.Raw()
+			}
 		} else {
 			cert, err := forgedCert(c)
 			if err != nil {
